@@ -23,6 +23,20 @@ Lemma InvB_lookup fs0 tens sc d m s :
   lookup (s_fs s) p = lookup (insert fs0 (dest_of fs0 (sc_req sc)) (File d m)) p.
 Proof. intros [[[H _] _] _]. exact H. Qed.
 
+Lemma Forall2_nth_r {A B} (R : A -> B -> Prop) l l0 h y :
+  Forall2 R l l0 -> nth_error l0 h = Some y -> exists x, nth_error l h = Some x /\ R x y.
+Proof.
+  intros H. revert h. induction H as [|x y0 l l0 Hxy H IH]; intros h Hh.
+  - destruct h; discriminate.
+  - destruct h as [|h]; simpl in *; [inversion Hh; subst; eauto | apply IH; exact Hh].
+Qed.
+
+Lemma read_tensor_ext fs fs' t : (forall p, lookup fs p = lookup fs' p) -> read_tensor fs t = read_tensor fs' t.
+Proof.
+  intros H. unfold read_tensor, file_at, resolve. rewrite (H (t_path t)).
+  destruct (lookup fs' (t_path t)) as [[| |tg]|]; rewrite ?H; reflexivity.
+Qed.
+
 Section Thms.
   Variable fs0 : fsT.
   Variable tens : list tstate.
@@ -72,7 +86,8 @@ Section Thms.
     snd (run c fs0 tens small sc) = SRaise e ->
     ~ In (OFail true) (s_trace (fst (run c fs0 tens small sc))) ->
     (forall p, lookup (s_fs (fst (run c fs0 tens small sc))) p = lookup fs0 p)
-    /\ map t_valid (s_tens (fst (run c fs0 tens small sc))) = map t_valid tens.
+    /\ map t_valid (s_tens (fst (run c fs0 tens small sc))) = map t_valid tens
+    /\ Forall2 trel (s_tens (fst (run c fs0 tens small sc))) tens.
   Proof.
     intros Hc Hr Hnf. destruct Hwf as (H1 & H2 & H3).
     destruct (spec c) as [(HA & _ & Hcl)|(d & m & s1 & _ & _ & _ & Hcl)].
@@ -84,6 +99,25 @@ Section Thms.
     - exfalso. destruct (Hcl Hc) as [X|X]; [rewrite X in Hr; discriminate | contradiction].
   Qed.
 
+  (* ... and every external tensor is still valid-as-before and reads the bytes it read before *)
+  Theorem exception_tensors_read_old c e :
+    crash_at c = None ->
+    snd (run c fs0 tens small sc) = SRaise e ->
+    ~ In (OFail true) (s_trace (fst (run c fs0 tens small sc))) ->
+    (forall h t d, nth_error tens h = Some t -> t_map t = Some d -> exists m, file_at fs0 (t_path t) = Some (d, m)) ->
+    forall h t, nth_error tens h = Some t ->
+    exists t', nth_error (s_tens (fst (run c fs0 tens small sc))) h = Some t'
+      /\ t_valid t' = t_valid t
+      /\ read_tensor (s_fs (fst (run c fs0 tens small sc))) t' = read_tensor fs0 t.
+  Proof.
+    intros Hc Hr Hnf Hcoh h t Ht.
+    destruct (exception_clean c e Hc Hr Hnf) as (Hfs & _ & HT).
+    destruct (Forall2_nth_r _ _ _ _ _ HT Ht) as (t' & Ht' & Hrel).
+    exists t'. split; [exact Ht'|]. split; [exact (proj1 (proj2 (proj2 (proj2 Hrel))))|].
+    rewrite (read_tensor_ext _ fs0 t' Hfs). apply read_trel; [exact Hrel|].
+    intros d Hd. eapply Hcoh; eauto.
+  Qed.
+
   (* invalidated only if replaced *)
   Theorem invalidate_only_if_replaced c h :
     let s := fst (run c fs0 tens small sc) in
@@ -93,7 +127,7 @@ Section Thms.
         /\ exists d m, lookup (s_fs s) dest = Some (File d m)).
   Proof.
     cbv zeta. intros Hv. destruct Hwf as (H1 & H2 & H3). subst tmpf dest.
-    destruct (spec c) as [([_ HV] & _)|(d & m & s1 & HB & _)].
+    destruct (spec c) as [([_ [HV _]] & _)|(d & m & s1 & HB & _)].
     2: pose proof (InvB_lookup _ _ _ _ _ _ HB) as HF; destruct HB as (_ & Hin & HW).
     - left. unfold valids in HV. rewrite <- HV. exact Hv.
     - destruct (HW h) as [E|[E Ho]].
